@@ -539,7 +539,8 @@ def m_min_max(ex, st, fr, callee, a, depth):
     x, y = a[0], a[1]
     if not (is_z3(x) and is_z3(y)):
         raise Inconclusive('min/max of %r' % (x,))
-    return z3.simplify(z3.If(z3.ULE(x, y), x, y) if '::min::<' in callee else z3.If(z3.UGE(x, y), x, y))
+    is_min = '::min::<' in callee or callee.endswith('::min')
+    return z3.simplify(z3.If(z3.ULE(x, y), x, y) if is_min else z3.If(z3.UGE(x, y), x, y))
 
 
 MODELS2 += [
@@ -553,7 +554,7 @@ MODELS2 += [
     (P(r'^NodeIndex::index$|^NodeIndex::<.*>::index$'), m_node_index),
     (P(r'^(HashSet|BTreeSet)::<.*>::new$'), m_set_new),
     (P(r'^(HashSet|BTreeSet)::<.*>::insert$'), m_set_insert),
-    (P(r'^std::cmp::(min|max)::<(u8|u16|u32|u64|usize)>$'), m_min_max),
+    (P(r'^std::cmp::(min|max)::<(u8|u16|u32|u64|usize)>$|^<(u8|u16|u32|u64|usize) as Ord>::(min|max)$'), m_min_max),
 ]
 
 
